@@ -47,6 +47,13 @@ def canonical(root):
     def val(v, depth=0):
         if _is_node(v):
             return ["ref", ref(v)]
+        if isinstance(v, (str, bytes, bytearray)) and len(v) > 200:
+            import hashlib
+
+            data = v.encode("utf-8", "surrogatepass") if isinstance(v, str) else bytes(v)
+            return [type(v).__name__, len(v), hashlib.sha1(data).hexdigest()]
+        if isinstance(v, (bytes, bytearray)):
+            return [type(v).__name__, list(v)]
         if v is None or isinstance(v, (bool, int, str)):
             return v
         if isinstance(v, float):
